@@ -28,6 +28,9 @@ DIVS_GRIDS = [  # (divisions per quarter, admissible grid steps) -- reduced offs
 ]
 METERS = [(2, 4), (3, 4), (4, 4), (5, 4), (3, 8), (6, 8), (9, 8), (12, 8), (2, 2), (7, 8), (6, 4), (3, 2), (5, 8)]
 PAIRS = [(480, 500000), (96, 600000), (1000, 333333), (384, 250000), (960, 1000000), (220, 428571), (480, 461538)]
+# the clocks the property's histories are explored with (save -> load -> save with another clock -> load);
+# (1, 1000000) is the coarsest possible clock (one tick per second): many events share a tick
+CLOCKS = [(480, 500000), (1000, 600000), (96, 600000), (4000, 500000), (1, 1000000)]
 STEPS = ["C", "D", "E", "F", "G", "A", "B"]
 BASE = {"C": 0, "D": 2, "E": 4, "F": 5, "G": 7, "A": 9, "B": 11}
 ARTS = ["staccato", "accent", "tenuto", "marcato", "breath-mark"]
@@ -37,6 +40,17 @@ SUPPORTED_ARTS = ("staccato", "accent")
 def measure_len(divs, num, den):
     x = Fraction(num * 4 * divs, den)
     return int(x) if x.denominator == 1 else None
+
+
+def pick_clock(rng):
+    r = rng.random()
+    if r < 0.60:
+        return rng.choice(CLOCKS[:4])
+    if r < 0.68:
+        return CLOCKS[4]
+    if r < 0.92:
+        return rng.choice(PAIRS)
+    return (rng.randint(24, 2000), rng.randint(200000, 1500000))
 
 
 def gen_case(rng, size=1.0):
@@ -144,8 +158,14 @@ def gen_case(rng, size=1.0):
     for n in notes:
         n["id"] = sid(n["id"])
     # performance
-    ppq, mpq = rng.choice(PAIRS) if rng.random() < 0.8 else (rng.randint(24, 2000), rng.randint(200000, 1500000))
-    tick = Fraction(mpq, 10 ** 6 * ppq)  # seconds per tick
+    ppq, mpq = pick_clock(rng)  # the clock asked of save_match (first leg)
+    # the clock the performed part was "loaded" with: None = a freshly built PerformedPart (seconds only, no
+    # tick fields); otherwise the notes carry note_on_tick/note_off_tick of THAT clock (as anything loaded from a
+    # match or MIDI file does) and the PerformedPart has that ppq/mpq -- equal to the save clock or another one
+    r = rng.random()
+    pclock = None if r < 0.4 else [ppq, mpq] if r < 0.55 else list(pick_clock(rng))
+    gppq, gmpq = pclock or (ppq, mpq)
+    tick = Fraction(gmpq, 10 ** 6 * gppq)  # seconds per tick of the grid the generated times lie on
     spq = Fraction(rng.randint(250, 1200), 1000)  # seconds per score quarter
     on_grid = rng.random() < 0.7
     pid_style = "n" if rng.random() < 0.85 else rng.choice(["p", "int"])
@@ -160,7 +180,7 @@ def gen_case(rng, size=1.0):
         if on_grid:
             return Fraction(float(k * tick))  # the float a MIDI loader would produce
         r = rng.random()
-        if r < 0.15 and (mpq * (2 * k + 1)) % 1 == 0:
+        if r < 0.15:
             return Fraction(float((k + Fraction(1, 2)) * tick))
         return Fraction(float(x))
 
@@ -177,7 +197,10 @@ def gen_case(rng, size=1.0):
         k = pk[0]
         pk[0] += 1
         pid = {"n": "n%d" % k, "p": "p%d" % k, "int": k}[pid_style]
-        pnotes.append(dict(id=pid, pitch=pitch, on=str(on), off=str(off), vel=rng.randint(1, 127)))
+        pn = dict(id=pid, pitch=pitch, on=str(on), off=str(off), vel=rng.randint(1, 127))
+        if pclock:
+            pn["on_tick"], pn["off_tick"] = int(rhe(on / tick)), int(rhe(off / tick))
+        pnotes.append(pn)
         return pid
 
     r_non = rng.choice([0.0, 0.1, 0.2, 0.4])
@@ -207,8 +230,16 @@ def gen_case(rng, size=1.0):
     for i in range(nped):
         t = q_time(Fraction(rng.randint(0, int(total * 1000)), 1000))
         controls.append(dict(number=rng.choice([64, 64, 64, 67, 67, 1, 7]), time=str(t), value=rng.choice([0, 127, 64, 63, rng.randint(0, 127)])))
+    # history: further legs  load -> save_match with (ppq, mpq) -> load ; "loaded" = the score part that was
+    # loaded is saved again, "orig" = the generated part is saved with the loaded performance and alignment
+    r = rng.random()
+    legs, prev = [], (ppq, mpq)
+    for _ in range(0 if r < 0.4 else 1 if r < 0.85 else 2):
+        c = prev if rng.random() < 0.12 else pick_clock(rng)
+        legs.append([c[0], c[1], "loaded" if rng.random() < 0.6 else "orig"])
+        prev = c
     return dict(divs=divs, grid=g, tsigs=tsigs, ksigs=ksigs, bounds=bounds, pickup=pickup, notes=notes,
-                pnotes=pnotes, alignment=alignment, controls=controls, ppq=ppq, mpq=mpq)
+                pnotes=pnotes, alignment=alignment, controls=controls, ppq=ppq, mpq=mpq, pclock=pclock, legs=legs)
 
 
 # ----------------------------------------------------------------------------
@@ -248,10 +279,16 @@ def build_objects(case):
                 prev.tie_next = o
                 o.tie_prev = prev
             prev = o
-    pn = [dict(id=p["id"], midi_pitch=p["pitch"], note_on=float(Fraction(p["on"])), note_off=float(Fraction(p["off"])),
-               velocity=p["vel"]) for p in case["pnotes"]]
+    pn = []
+    for p in case["pnotes"]:
+        d = dict(id=p["id"], midi_pitch=p["pitch"], note_on=float(Fraction(p["on"])), note_off=float(Fraction(p["off"])),
+                 velocity=p["vel"])
+        if "on_tick" in p:  # tick fields of the clock the performance was loaded with (case["pclock"])
+            d["note_on_tick"], d["note_off_tick"] = p["on_tick"], p["off_tick"]
+        pn.append(d)
     ctrl = [dict(number=c["number"], time=float(Fraction(c["time"])), value=c["value"]) for c in case["controls"]]
-    ppart = PerformedPart(notes=pn, id="PP", controls=ctrl, ppq=case["ppq"], mpq=case["mpq"])
+    pq, mq = case.get("pclock") or (case["ppq"], case["mpq"])
+    ppart = PerformedPart(notes=pn, id="PP", controls=ctrl, ppq=pq, mpq=mq)
     alignment = [dict(a) for a in case["alignment"]]
     return part, ppart, alignment
 
@@ -284,7 +321,9 @@ def observe_part(part):
     ts = by_pos((bm(t.start.t), int(t.beats), int(t.beat_type)) for t in part.iter_all(score.TimeSignature))
     ks = by_pos((bm(k.start.t), int(k.fifths), str(k.mode)) for k in part.iter_all(score.KeySignature))
     q = sorted(set(int(x) for x in part._quarter_durations))
-    return dict(notes=notes, measures=meas, tsigs=ts, ksigs=ks, quarter_durations=q)
+    # measure table as the exporter reads it: start in divisions, denominator in force there
+    mt = sorted((int(m.start.t), int(part.time_signature_map(m.start.t)[1])) for m in part.iter_all(score.Measure))
+    return dict(notes=notes, measures=meas, tsigs=ts, ksigs=ks, quarter_durations=q, meas_tab=mt)
 
 
 def observe_file(path):
@@ -329,23 +368,19 @@ def observe_file(path):
     return dict(lines=out, scoreprops=sp, pedals=ped, ppq=mf.info("midiClockUnits"), mpq=mf.info("midiClockRate"))
 
 
-def run_impl(case, workdir, name="case"):
-    """save_match -> file -> load_match(create_score=True).  Returns dict(status=..., ...)."""
+def run_leg(obs, alignment, perf_arg, score_arg, ppq, mpq, path):
+    """save_match(alignment, performance, score, ppq, mpq) -> file -> load_match(create_score=True) on live
+    objects; fills obs (needs obs["orig"]) and keeps the loaded objects in obs["_live"] for a further leg."""
     from partitura.io.exportmatch import save_match
     from partitura.io.importmatch import load_match
 
-    os.makedirs(workdir, exist_ok=True)
-    path = os.path.join(workdir, name + ".match")
-    obs = dict(status="ok")
     with warnings.catch_warnings():
         warnings.simplefilter("ignore")
         try:
-            part, ppart, alignment = build_objects(case)
-            obs["orig"] = observe_part(part)
-        except Exception as e:  # not the subject of C08 (construction of the inputs)
-            return dict(status="build_error", error="%s: %s" % (type(e).__name__, e))
-        try:
-            save_match(alignment, ppart, part, out=path, mpq=case["mpq"], ppq=case["ppq"], assume_unfolded=True)
+            if (ppq, mpq) == (480, 500000) and obs.get("use_defaults"):
+                save_match(alignment, perf_arg, score_arg, out=path, assume_unfolded=True)  # the default clock
+            else:
+                save_match(alignment, perf_arg, score_arg, out=path, mpq=mpq, ppq=ppq, assume_unfolded=True)
         except Exception as e:
             return dict(status="save_error", error="%s: %s" % (type(e).__name__, str(e)[:300]), orig=obs["orig"])
         with open(path) as f:
@@ -361,22 +396,112 @@ def run_impl(case, workdir, name="case"):
             return dict(status="load_error", error="%s: %s | %s" % (type(e).__name__, str(e)[:300], traceback.format_exc()[-400:]),
                         orig=obs["orig"], file=obs["file"])
         obs["alignment"] = [dict((k, (v if isinstance(v, (str, int)) else [str(x) for x in v])) for k, v in a.items()) for a in al2]
-        pp = perf[0]
-        obs["perf"] = dict(
-            ppq=int(pp.ppq), mpq=int(pp.mpq),
-            notes=[dict(id=str(n["id"]), pitch=int(n["midi_pitch"]), vel=int(n["velocity"]),
-                        on_tick=int(n["note_on_tick"]), off_tick=int(n["note_off_tick"]),
-                        on=fr(n["note_on"]), off=fr(n["note_off"])) for n in pp.notes],
-            controls=[dict(number=int(c["number"]), time=fr(c["time"]), value=int(c["value"])) for c in pp.controls])
+        try:
+            obs["perf"] = observe_perf(perf[0])
+        except Exception as e:
+            return dict(status="load_error", error="observing loaded performance %s: %s" % (type(e).__name__, str(e)[:300]), orig=obs["orig"])
         try:
             obs["loaded"] = observe_part(scr[0])
         except Exception as e:
             return dict(status="load_error", error="observing loaded part %s: %s" % (type(e).__name__, str(e)[:300]), orig=obs["orig"])
+        obs["_live"] = (perf, al2, scr)
     try:
         os.remove(path)
     except OSError:
         pass
     return obs
+
+
+def observe_perf(pp):
+    return dict(
+        ppq=int(pp.ppq), mpq=int(pp.mpq),
+        notes=[dict(id=str(n["id"]), pitch=int(n["midi_pitch"]), vel=int(n["velocity"]),
+                    on_tick=int(n["note_on_tick"]), off_tick=int(n["note_off_tick"]),
+                    on=fr(n["note_on"]), off=fr(n["note_off"])) for n in pp.notes],
+        controls=[dict(number=int(c["number"]), time=fr(c["time"]), value=int(c["value"])) for c in pp.controls])
+
+
+def export_src_case(case):
+    """what the exporter is given, from the generated case: measure table, divisions, (onset, duration) per id"""
+    return dict(tab=measure_table(case), divs=case["divs"], notes={n["id"]: (n["on"], n["dur"]) for n in case["notes"]})
+
+
+def export_src_part(o):
+    """the same from an observed part (a part that was itself loaded from a match file)"""
+    if len(o["quarter_durations"]) != 1:
+        return None
+    first = 0 if o["measures"] and Fraction(o["measures"][0][0]) < 0 else 1
+    tab = [(first + i, st, den) for i, (st, den) in enumerate(o["meas_tab"])]
+    return dict(tab=tab, divs=o["quarter_durations"][0],
+                notes={nid: (n["onset_div"], n["duration_div"]) for nid, n in o["notes"].items()})
+
+
+def run_impl(case, workdir, name="case"):
+    """first leg: build -> save_match -> file -> load_match(create_score=True).  Returns dict(status=..., ...)."""
+    os.makedirs(workdir, exist_ok=True)
+    path = os.path.join(workdir, name + ".match")
+    obs = dict(status="ok", use_defaults=bool(len(case["pnotes"]) % 2))
+    with warnings.catch_warnings():
+        warnings.simplefilter("ignore")
+        try:
+            part, ppart, alignment = build_objects(case)
+            obs["orig"] = observe_part(part)
+        except Exception as e:  # not the subject of C08 (construction of the inputs)
+            return dict(status="build_error", error="%s: %s" % (type(e).__name__, e))
+    obs["src"] = export_src_case(case)
+    return run_leg(obs, alignment, ppart, part, case["ppq"], case["mpq"], path)
+
+
+def derive_case(case, obs, ppq, mpq, mode):
+    """the input of a further leg written as a case: the performance and alignment that were LOADED are what
+    is saved now (their seconds are the 'original' seconds of this leg), with the clock asked of this leg"""
+    d = dict(case)
+    d["pnotes"] = [dict(id=n["id"], pitch=n["pitch"], on=n["on"], off=n["off"], vel=n["vel"],
+                        on_tick=n["on_tick"], off_tick=n["off_tick"]) for n in obs["perf"]["notes"]]
+    d["controls"] = [dict(number=c["number"], time=c["time"], value=c["value"]) for c in obs["perf"]["controls"]]
+    d["alignment"] = [dict((k, a[k]) for k in ("label", "score_id", "performance_id") if k in a) for a in obs["alignment"]]
+    d["pclock"] = [obs["perf"]["ppq"], obs["perf"]["mpq"]]
+    d["ppq"], d["mpq"], d["legs"] = ppq, mpq, []
+    if mode == "loaded":  # the loaded part has a voice and a staff on every note
+        L = obs["loaded"]["notes"]
+        d["notes"] = [dict(n, voice=L[n["id"]]["voice"], staff=L[n["id"]]["staff"]) for n in case["notes"] if n["id"] in L]
+    return d
+
+
+def run_chain(case, workdir, name="case"):
+    """all legs of the case's history -> [(case of the leg, observations of the leg)]; stops after a failing leg"""
+    obs = run_impl(case, workdir, name)
+    out = [(case, obs)]
+    cur = case
+    for k, (ppq, mpq, mode) in enumerate(case.get("legs") or []):
+        if obs["status"] != "ok":
+            break
+        perf, al, scr = obs["_live"]
+        cur = derive_case(cur, obs, ppq, mpq, mode)
+        o2 = dict(status="ok", use_defaults=bool(len(cur["pnotes"]) % 2), leg=k + 2, mode=mode)
+        if mode == "loaded":
+            o2["orig"], o2["src"] = obs["loaded"], export_src_part(obs["loaded"])
+            args = (al, perf, scr) if k % 2 == 0 else (al, perf[0], scr[0])
+        else:
+            with warnings.catch_warnings():
+                warnings.simplefilter("ignore")
+                part = build_objects(case)[0]
+                o2["orig"] = observe_part(part)
+            o2["src"] = export_src_case(case)
+            args = (al, perf[0], part)
+        obs = run_leg(o2, args[0], args[1], args[2], ppq, mpq, os.path.join(workdir, "%s_leg%d.match" % (name, k + 2)))
+        out.append((cur, obs))
+    return out
+
+
+def check_chain(case, workdir, name="case"):
+    """-> ([(leg number, clause, message)], chain)"""
+    chain = run_chain(case, workdir, name)
+    bad = []
+    for k, (c, o) in enumerate(chain):
+        bad += [(k + 1, cl, msg if k == 0 else "leg %d (saved again with ppq=%s mpq=%s, %s score): %s" % (k + 1, c["ppq"], c["mpq"], o.get("mode", "?"), msg))
+                for cl, msg in oracle(c, o)]
+    return bad, chain
 
 
 # ----------------------------------------------------------------------------
@@ -428,8 +553,9 @@ def expected_alignment(case):
     return sorted(out, key=str)
 
 
-def oracle(case, obs):
-    """Return a list of (clause, message) for every clause of C08 the observables violate."""
+def oracle(case, obs, score=True):
+    """Return a list of (clause, message) for every clause of C08 the observables violate (score=False: only the
+    alignment and performance clauses)."""
     bad = []
     if obs["status"] != "ok":
         return [(obs["status"], obs.get("error", ""))]
@@ -493,6 +619,8 @@ def oracle(case, obs):
     others = [c for c in P["controls"] if c["number"] not in (64, 67)]
     if others:
         bad.append(("pedal", "loaded performance has controls other than 64/67: %s" % others[:3]))
+    if not score:
+        return bad
     # O3 score
     O, L = obs["orig"], obs["loaded"]
     if len(L["quarter_durations"]) != 1:
@@ -572,19 +700,22 @@ def measure_table(case):
 
 
 def export_term(case, obs):
-    """tab, dpq, [((on, dur), (measure, beat, offset, duration))] for every score note line of the file"""
-    given = {n["id"]: n for n in case["notes"]}
+    """tab, dpq, [((on, dur), (measure, beat, offset, duration))] for every score note line of the file; the
+    measure table, divisions and note positions are those of the part that was given to save_match (obs["src"])"""
+    src = obs.get("src")
+    if src is None:
+        return None
     rows, seen = [], set()
     for ln in obs["file"]["lines"]:
-        if ln["kind"] in ("match", "deletion") and ln["sid"] in given and ln["sid"] not in seen:
+        if ln["kind"] in ("match", "deletion") and ln["sid"] in src["notes"] and ln["sid"] not in seen:
             seen.add(ln["sid"])
-            n = given[ln["sid"]]
+            on, dur = src["notes"][ln["sid"]]
             if ln["dur_add"]:
                 return None
-            rows.append(ctuple([ctuple([cz(n["on"]), cz(n["dur"])]),
+            rows.append(ctuple([ctuple([cz(on), cz(dur)]),
                                 ctuple([cz(ln["measure"]), cz(ln["beat"]), cq(qfrac(*ln["off"])), cq(qfrac(*ln["dur"]))])]))
-    tab = clist([ctuple([cz(a), cz(b), cz(c)]) for a, b, c in measure_table(case)])
-    return ctuple([tab, cz(case["divs"]), clist(rows)])
+    tab = clist([ctuple([cz(a), cz(b), cz(c)]) for a, b, c in src["tab"]])
+    return ctuple([tab, cz(src["divs"]), clist(rows)])
 
 
 def file_tsl(obs):
@@ -621,18 +752,40 @@ def import_term(case, obs):
     return ctuple([clist([ctuple([cq(t), cz(d)]) for t, d in tsl]), cq(first), notes, cz(L["quarter_durations"][0]), loaded])
 
 
-def tick_terms(case, obs):
+def perf_terms(case, obs, limit=None):
+    """per performed note: (ppq, mpq, (pitch, velocity, onset s, offset s, stored ticks) as given to save_match,
+    (pitch, velocity, onset tick, offset tick, onset s, offset s) as loaded) -- checked against Model leg"""
     out = []
     lp = {n["id"]: n for n in obs["perf"]["notes"]}
     for p in case["pnotes"]:
         n = lp.get(fmt_pid(p["id"]))
         if n is None:
             continue
-        for key, tk in (("on", "on_tick"), ("off", "off_tick")):
-            t = Fraction(p[key])
-            if not near_tie(case, t):
-                out.append(ctuple([cz(case["ppq"]), cz(case["mpq"]), cq(t), cz(n[tk]), cq(Fraction(n[key]))]))
+        ton, toff = Fraction(p["on"]), Fraction(p["off"])
+        if near_tie(case, ton) or near_tie(case, toff):
+            continue
+        stored = ctuple([cz(p["on_tick"]), cz(p["off_tick"])]) if "on_tick" in p else None
+        out.append(ctuple([cz(case["ppq"]), cz(case["mpq"]),
+                           ctuple([cz(p["pitch"]), cz(p["vel"]), cq(ton), cq(toff), copt(stored, lambda x: x)]),
+                           ctuple([cz(n["pitch"]), cz(n["vel"]), cz(n["on_tick"]), cz(n["off_tick"]),
+                                   cq(Fraction(n["on"])), cq(Fraction(n["off"]))])]))
+        if limit and len(out) >= limit:
+            break
     return out
+
+
+def pedal_term(case, obs, max_controls=1200):
+    """(ppq, mpq, controls given to save_match (number, s, value), controls loaded) -- checked against the
+    model's pedal stream (filter 64/67, ticks, stable sort by tick, first occurrence of a line, sustain ++ soft)"""
+    cs = case["controls"]
+    if len(cs) > max_controls:
+        return None
+    if any(c["number"] in (64, 67) and near_tie(case, Fraction(c["time"])) for c in cs):
+        return None
+
+    def row(c):
+        return ctuple([cz(c["number"]), cq(Fraction(c["time"])), cz(c["value"])])
+    return ctuple([cz(case["ppq"]), cz(case["mpq"]), clist([row(c) for c in cs]), clist([row(c) for c in obs["perf"]["controls"]])])
 
 
 KIND_CODE = {"match": 0, "deletion": 1, "insertion": 2, "ornament": 3}
@@ -820,6 +973,7 @@ class _Timeout(Exception):
 
 
 def run_guarded(case, workdir, name="case", seconds=60):
+    """check_chain under an alarm -> ([(leg, clause, message)], [(case of leg, observations)])"""
     import signal
 
     def h(*a):
@@ -827,9 +981,10 @@ def run_guarded(case, workdir, name="case", seconds=60):
     old = signal.signal(signal.SIGALRM, h)
     signal.alarm(seconds)
     try:
-        return run_impl(case, workdir, name)
+        return check_chain(case, workdir, name)
     except _Timeout:
-        return dict(status="load_error", error="no result after %d s (save_match/load_match does not terminate)" % seconds)
+        msg = "no result after %d s (save_match/load_match does not terminate)" % seconds
+        return [(1, "load_error", msg)], [(case, dict(status="load_error", error=msg))]
     finally:
         signal.alarm(0)
         signal.signal(signal.SIGALRM, old)
@@ -838,15 +993,17 @@ def run_guarded(case, workdir, name="case", seconds=60):
 def shrink(case, clause, workdir):
     ids = [n["id"] for n in case["notes"]]
 
-    def fails(sub):
-        c = sub_case(case, sub)
+    def fails_case(c):
         if not c["notes"]:
             return False
         try:
-            b = oracle(c, run_guarded(c, workdir, "shrink", 20))
+            b, _ = run_guarded(c, workdir, "shrink", 20)
         except Exception:
             return False
-        return any(x[0] == clause for x in b)
+        return any(x[1] == clause for x in b)
+
+    def fails(sub):
+        return fails_case(sub_case(case, sub))
     try:
         small = core.ddmin(ids, fails) if len(ids) <= 40 else ids
     except Exception:
@@ -855,11 +1012,15 @@ def shrink(case, clause, workdir):
     if clause not in ("pedal",):
         c2 = dict(c)
         c2["controls"] = []
-        try:
-            if any(x[0] == clause for x in oracle(c2, run_guarded(c2, workdir, "shrink", 20))):
-                c = c2
-        except Exception:
-            pass
+        if fails_case(c2):
+            c = c2
+    legs = c.get("legs") or []
+    for k in range(len(legs)):  # the shortest history that still fails
+        c2 = dict(c)
+        c2["legs"] = legs[:k]
+        if fails_case(c2):
+            c = c2
+            break
     return c
 
 
@@ -892,82 +1053,184 @@ def features(case):
                 firsts[mi] = min(firsts.get(mi, 10 ** 9), n["on"] - case["bounds"][mi])
     if any(v > 0 for v in firsts.values()):
         f.append("bar_starts_with_rest")
-    return f
+    pc = case.get("pclock")
+    if pc:
+        f.append("stored_ticks_same_clock" if tuple(pc) == (case["ppq"], case["mpq"]) else "stored_ticks_other_clock")
+    prev = (case["ppq"], case["mpq"])
+    for ppq, mpq, mode in case.get("legs") or []:
+        f.append("resave_same_clock" if (ppq, mpq) == prev else "resave_other_clock")
+        f.append("resave_%s_score" % mode)
+        prev = (ppq, mpq)
+    if any(c[0] == 1 for c in [(case["ppq"], case["mpq"])] + [tuple(l[:2]) for l in case.get("legs") or []]):
+        f.append("clock_one_tick_per_second")
+    return sorted(set(f))
+
+
+def strip_live(o):
+    return dict((k, v) for k, v in o.items() if not k.startswith("_"))
+
+
+def fixture_clocks(rng, own, quick):
+    """clocks a fixture is saved again with: always one other than its own; quick 2, thorough all"""
+    other = [c for c in CLOCKS if c != own]
+    if not quick:
+        return other + [own]
+    a = rng.choice([c for c in other if c[0] != 1])
+    b = rng.choice([c for c in other if c != a] + [own])
+    return [a, b]
+
+
+def fixture_resave(fn, path, clocks, workdir, want_terms=True):
+    """load a fixture file, save what was loaded with another clock, load that: alignment and performance
+    clauses of C08 between the two loads (the first load's seconds are the original seconds).
+    -> [(clock, [(clause, message)], perf terms, pedal term, text lines of the new file)]"""
+    from partitura.io.importmatch import load_match
+
+    os.makedirs(workdir, exist_ok=True)
+    with warnings.catch_warnings():
+        warnings.simplefilter("ignore")
+        perf, al, scr = load_match(path, create_score=True)
+        o1 = dict(perf=observe_perf(perf[0]),
+                  alignment=[dict((k, v) for k, v in a.items() if isinstance(v, (str, int))) for a in al])
+    out = []
+    for k, (ppq, mpq) in enumerate(clocks):
+        dcase = derive_case(dict(notes=[]), o1, ppq, mpq, "fixture")
+        obs = dict(status="ok", use_defaults=True, orig=None)
+        args = (al, perf, scr) if k % 2 == 0 else (al, perf[0], scr[0])
+        obs = run_leg_noscore(obs, args, ppq, mpq, os.path.join(workdir, "fx_%d.match" % k))
+        bad = oracle(dcase, obs, score=False)
+        if obs["status"] == "ok":
+            n1 = sorted(n.id for n in scr[0].notes_tied)
+            n2 = obs["score_ids"]
+            if n1 != n2:
+                bad.append(("score_lost", "score note ids differ after saving again: lost %s, extra %s" % (
+                    [x for x in n1 if x not in n2][:3], [x for x in n2 if x not in n1][:3])))
+        terms = perf_terms(dcase, obs) if (want_terms and obs["status"] == "ok") else []
+        pterm = pedal_term(dcase, obs) if (want_terms and obs["status"] == "ok") else None
+        out.append(((ppq, mpq), bad, terms, pterm, obs.get("text_lines", [])))
+    return out
+
+
+def run_leg_noscore(obs, args, ppq, mpq, path):
+    """run_leg for a fixture: the loaded score is only asked for its note ids"""
+    from partitura.io.exportmatch import save_match
+    from partitura.io.importmatch import load_match
+
+    with warnings.catch_warnings():
+        warnings.simplefilter("ignore")
+        try:
+            if (ppq, mpq) == (480, 500000):
+                save_match(args[0], args[1], args[2], out=path, assume_unfolded=True)
+            else:
+                save_match(args[0], args[1], args[2], out=path, mpq=mpq, ppq=ppq, assume_unfolded=True)
+        except Exception as e:
+            return dict(status="save_error", error="%s: %s" % (type(e).__name__, str(e)[:300]))
+        with open(path) as f:
+            obs["text_lines"] = f.read().splitlines()
+        try:
+            perf, al2, scr = load_match(path, create_score=True)
+            obs["alignment"] = [dict((k, v) for k, v in a.items() if isinstance(v, (str, int))) for a in al2]
+            obs["perf"] = observe_perf(perf[0])
+            obs["score_ids"] = sorted(n.id for n in scr[0].notes_tied)
+        except Exception as e:
+            return dict(status="load_error", error="%s: %s" % (type(e).__name__, str(e)[:300]))
+    return obs
 
 
 def run(ctx):
-    ctx.rule = ("cases = generated (single-part score with one divisions value and complete last measure, performed part, "
-                "alignment, ppq, mpq) -> save_match -> file -> load_match(create_score=True); non-trivial = distinct case with at "
-                "least one of: pickup, time-signature change, non-quarter meter, key change, tie, grace note, non-match alignment "
-                "label, pedal events, bar starting with a rest; plus stressed copies of the written files (duplicated and "
-                "conflicting lines) and the fixture match files of tests/data/match")
+    ctx.rule = ("cases = generated HISTORIES: (single-part score with one divisions value and complete last measure, performed part "
+                "with or without stored tick fields of the clock it was loaded with, alignment, ppq, mpq) -> save_match -> file -> "
+                "load_match(create_score=True) [leg 1], then 0-2 further legs: what was loaded (performance, alignment and either the "
+                "loaded or the generated score part) -> save_match with a clock drawn again from {(480,500000),(1000,600000),"
+                "(96,600000),(4000,500000),(1,1000000)} (60 %), 7 other pairs or a random pair -> load_match; every clause of C08 is "
+                "evaluated after every leg, the seconds handed to save_match being the original seconds of that leg. non-trivial = "
+                "distinct history with at least one of: pickup, time-signature change, non-quarter meter, key change, tie, grace note, "
+                "non-match alignment label, pedal events, bar starting with a rest, stored ticks, a further leg; plus stressed copies of "
+                "the written files (duplicated and conflicting lines) and the fixture match files of tests/data/match, each also "
+                "saved again with other clocks and loaded (alignment, performance, clock, note ids)")
     ctx.trusted = ["Coq 8.16.1 kernel incl. vm_compute", "harness/props/c08.py (generator, observers, Coq term printers, Python mirror of the documented id resolution)",
-                   "partitura's line parser/formatter for single lines (property C07) and Part/PerformedPart constructors, note_array, beat_map (C01, C02, C05) used to build inputs and read results"]
+                   "partitura's line parser/formatter for single lines (property C07) and Part/PerformedPart constructors, note_array, beat_map, time_signature_map (C01, C02, C05, C10) used to build inputs and read results"]
     ctx.assumptions = ["score: one part, one divisions value, complete last measure, every measure has at least one note onset (only note lines carry measure numbers), a pickup measure starts with a note, reduced offset/duration fractions have numerator and denominator <= 1024 (larger ones are approximated by the line codec, C07)",
                        "performance: no two overlapping notes of one pitch (C14), times >= 0; tick values within 2^-20 of a rounding tie are skipped and counted",
                        "performance note ids not starting with 'n' are compared after the documented 'n' prefixing; an exact repetition of a pedal event (same tick and value) is one line of the file",
-                       "alignment: every score note (chain head) appears once as match or deletion, every performed note once as match, insertion or ornament"]
+                       "alignment: every score note (chain head) appears once as match or deletion, every performed note once as match, insertion or ornament",
+                       "stored note_on_tick/note_off_tick of a performed note describe the clock the performance was loaded with; the seconds are the data (the property asks for the seconds rounded to the nearest tick of the clock of the file being written)"]
     ctx.matchers["C08-K1"] = k1_matcher
     ok, why = ctx.coq_props(expect_min=15)
     quick = ctx.tier == "quick"
-    ncases = 400 if quick else 5000
+    ncases = 330 if quick else 4000
     work = ctx.work
     n_viol = 0
-    exp_terms, imp_terms, tk_terms, rd_terms, al_terms = [], [], [], [], []
-    exp_cases, imp_cases, tk_cases, rd_labels = [], [], [], []
+    exp_terms, imp_terms, pf_terms, pd_terms, rd_terms, al_terms = [], [], [], [], [], []
+    exp_cases, imp_cases, pf_cases, pd_cases, rd_labels = [], [], [], [], []
     skipped = 0
     for i in range(ncases):
         size = 1.0 if i % 5 else 2.0
         case = gen_case(ctx.rng, size)
-        obs = run_guarded(case, work, "c%d" % i)
-        ctx.evaluations += 1
+        bad, chain = run_guarded(case, work, "c%d" % i)
+        ctx.evaluations += len(chain)
+        obs = chain[0][1]
         if obs["status"] == "build_error":
             ctx.count("input_rejected_by_constructors")
             continue
         feats = features(case)
         for f in feats:
             ctx.count(f)
+        ctx.count("legs_run", len(chain))
         if feats:
             ctx.nontrivial(json.dumps(case, sort_keys=True))
-        bad = oracle(case, obs)
         if bad:
-            clause, msg = bad[0]
+            leg, clause, msg = bad[0]
+            status = chain[leg - 1][1]["status"]
             if n_viol < 8:
-                rep = dict(case=case, status=obs["status"], clause=clause, message=msg, all=[b[1] for b in bad[:6]])
-                if obs["status"] == "save_error" and k1_matcher(rep):
+                rep = dict(case=case, status=status, clause=clause, message=msg, all=[b[2] for b in bad[:6]])
+                if leg == 1 and status == "save_error" and k1_matcher(rep):
                     ctx.violation(msg, rep)
                     ctx.count("known:K1")
                     continue
+                if status == "save_error" and k1_matcher(dict(rep, case=chain[leg - 1][0])):
+                    ctx.count("known:K1_later_leg")  # nothing but unmatched notes was loaded: same finding
+                    ctx.violation(msg, dict(rep, case=chain[leg - 1][0]))
+                    continue
                 small = shrink(case, clause, work)
-                sb = oracle(small, run_guarded(small, work, "small"))
-                rep = dict(case=small, status=obs["status"], clause=clause, message=(sb or bad)[0][1], all=[b[1] for b in (sb or bad)[:6]])
+                sb, _ = run_guarded(small, work, "small")
+                sb = [b for b in sb if b[1] == clause] or sb
+                rep = dict(case=small, status=status, clause=clause, message=(sb or bad)[0][2], all=[b[2] for b in (sb or bad)[:6]])
                 ctx.violation("C08 %s: %s" % (clause, rep["message"]), rep)
                 n_viol += 1
             continue
         ctx.count("ok")
-        if i < 2:
-            ctx.sample(dict(case=dict((k, case[k]) for k in ("divs", "tsigs", "ksigs", "bounds", "pickup", "ppq", "mpq")),
-                            n_notes=len(case["notes"]), n_pnotes=len(case["pnotes"]), file_head=obs["text_lines"][8:14]))
-        t = export_term(case, obs)
-        if t is not None:
-            exp_terms.append(t)
-            exp_cases.append(case)
-        t = import_term(case, obs)
-        if t is not None:
-            imp_terms.append(t)
-            imp_cases.append(case)
-        else:
-            skipped += 1
-        for t in tick_terms(case, obs):
-            tk_terms.append(t)
-            tk_cases.append(case)
+        if i < 3:
+            ctx.sample(dict(case=dict((k, case[k]) for k in ("divs", "tsigs", "ksigs", "bounds", "pickup", "ppq", "mpq", "pclock", "legs")),
+                            n_notes=len(case["notes"]), n_pnotes=len(case["pnotes"]), n_controls=len(case["controls"]),
+                            first_pnote=case["pnotes"][:1], file_head=obs["text_lines"][6:13],
+                            last_leg_file_head=chain[-1][1]["text_lines"][6:9] if len(chain) > 1 else None))
+        for c, o in chain:
+            t = export_term(c, o)
+            if t is not None:
+                exp_terms.append(t)
+                exp_cases.append(case)
+            t = import_term(c, o)
+            if t is not None:
+                imp_terms.append(t)
+                imp_cases.append(case)
+            else:
+                skipped += 1
+            for t in perf_terms(c, o):
+                pf_terms.append(t)
+                pf_cases.append(case)
+            t = pedal_term(c, o)
+            if t is not None:
+                pd_terms.append(t)
+                pd_cases.append(case)
         # O4 on the written file and on a stressed copy
         if i % (3 if quick else 6) == 0:
             path = os.path.join(work, "s%d.match" % i)
+            text_lines = chain[-1][1]["text_lines"] if i % 2 else obs["text_lines"]
             with open(path, "w") as f:
-                f.write("\n".join(obs["text_lines"]) + "\n")
+                f.write("\n".join(text_lines) + "\n")
             b1, _, _ = check_reader(path, "written:%d" % i, ctx, rd_terms, al_terms, rd_labels)
-            stress_file(ctx.rng, obs["text_lines"], path)
+            stress_file(ctx.rng, text_lines, path)
             b2, raw, got = check_reader(path, "stressed:%d" % i, ctx, rd_terms, al_terms, rd_labels)
             ctx.count("stressed_files")
             if len(raw) != len(got):
@@ -1018,12 +1281,47 @@ def run(ctx):
             sids = [n.id for n in scr[0].notes_tied]
             if len(sids) != len(set(sids)):
                 bad.append("score note ids duplicated in the loaded score")
+            own = (int(perf[0].ppq), int(perf[0].mpq))
         except Exception as e:
             bad = ["loading fixture raises %s: %s" % (type(e).__name__, str(e)[:300])]
+            own = None
         ctx.count("fixtures")
         ctx.nontrivial("fixture:" + fn)
         for b in bad[:2]:
             ctx.violation("C08 fixture %s: %s" % (fn, b), dict(clause="fixture", fixture=fn, message=b))
+        if own is None:
+            continue
+        # the fixture saved again with other clocks and loaded
+        clocks = fixture_clocks(ctx.rng, own, quick)
+        try:
+            res = fixture_resave(fn, path, clocks, work)
+        except Exception as e:
+            ctx.violation("C08 fixture %s: saving the loaded fixture again raises %s: %s" % (fn, type(e).__name__, str(e)[:300]),
+                          dict(clause="fixture_resave", fixture=fn, clocks=clocks, message=str(e)[:300]))
+            continue
+        for (ppq, mpq), fbad, terms, pterm, text_lines in res:
+            ctx.evaluations += 1
+            ctx.count("fixture_resaved")
+            ctx.count("fixture_resaved_other_clock" if (ppq, mpq) != own else "fixture_resaved_same_clock")
+            ctx.nontrivial("fixture:%s:%d:%d" % (fn, ppq, mpq))
+            for cl, msg in fbad[:2]:
+                ctx.violation("C08 fixture %s (clock %d/%d) saved again with ppq=%d mpq=%d and loaded: %s: %s" % (fn, own[0], own[1], ppq, mpq, cl, msg),
+                              dict(clause="fixture_resave", fixture=fn, clocks=[[ppq, mpq]], message=msg))
+            if not fbad:
+                step = max(1, len(terms) // (60 if quick else 400))
+                for t in terms[::step]:
+                    pf_terms.append(t)
+                    pf_cases.append("fixture:%s:%d:%d" % (fn, ppq, mpq))
+                if pterm is not None and (not quick or len(pterm) < 150000):
+                    pd_terms.append(pterm)
+                    pd_cases.append("fixture:%s:%d:%d" % (fn, ppq, mpq))
+                if text_lines and (ppq, mpq) == clocks[0]:
+                    p2 = os.path.join(work, "fxw.match")
+                    with open(p2, "w") as f:
+                        f.write("\n".join(text_lines) + "\n")
+                    b3, _, _ = check_reader(p2, "fixture_resaved:%s:%d:%d" % (fn, ppq, mpq), ctx, rd_terms, al_terms, rd_labels)
+                    for b in b3[:1]:
+                        ctx.violation("C08 fixture %s saved again: %s" % (fn, b), dict(clause="fixture_resave", fixture=fn, clocks=[[ppq, mpq]], message=b))
     ctx.log("fixtures done")
     if not ok:
         if not ctx.violations:
@@ -1031,18 +1329,19 @@ def run(ctx):
         return
     # correspondence
     cap = 1500 if quick else 15000
-    if len(tk_terms) > cap:  # evenly spaced sample of the tick terms (exact dyadic rationals are large literals)
-        step = len(tk_terms) / float(cap)
+    if len(pf_terms) > cap:  # evenly spaced sample of the note terms (exact dyadic rationals are large literals)
+        step = len(pf_terms) / float(cap)
         idx = sorted({int(k * step) for k in range(cap)})
-        tk_terms, tk_cases = [tk_terms[k] for k in idx], [tk_cases[k] for k in idx]
+        pf_terms, pf_cases = [pf_terms[k] for k in idx], [pf_cases[k] for k in idx]
     for name, terms, cases, checker, what in (
-            ("export", exp_terms, exp_cases, "chk_case_export", "model encode_pos/enc_dur = measure:beat, offset, duration written by matchfile_from_alignment"),
-            ("import", imp_terms, imp_cases, "chk_import", "model divisions/bar times/decode_divs/decode_dur = divisions, onsets and durations of the part loaded by part_from_matchfile"),
-            ("ticks", tk_terms, tk_cases, "chk_tick", "model sec_to_tick/tick_to_sec = ticks written and seconds loaded"),
+            ("export", exp_terms, exp_cases, "chk_case_export", "model encode_pos/enc_dur = measure:beat, offset, duration written by matchfile_from_alignment (every leg; parts built by the generator and parts loaded from a match file)"),
+            ("import", imp_terms, imp_cases, "chk_import", "model divisions/bar times/decode_divs/decode_dur = divisions, onsets and durations of the part loaded by part_from_matchfile (every leg)"),
+            ("perf", pf_terms, pf_cases, "chk_pnote", "model leg (exp_note, imp_note) = pitch, velocity, ticks and seconds of the loaded performed notes for the notes given to save_match, with and without stored ticks (every leg, fixtures saved again)"),
+            ("pedal", pd_terms, pd_cases, "chk_pedal", "model ped_roundtrip = controls of the loaded performance for the controls given to save_match (every leg, fixtures saved again)"),
             ("reader", rd_terms, rd_labels, "chk_reader", "model validate(unique_first(lines)) = note lines returned by load_matchfile (written, stressed and fixture files)"),
             ("alignment", al_terms, rd_labels, "chk_alignment", "model alignment_of = alignment_from_matchfile")):
         try:
-            failing = ctx.coq_failing(name, IMPORTS, DEFS, terms, checker, shard=150 if name in ("export", "import") else 400)
+            failing = ctx.coq_failing(name, IMPORTS, DEFS, terms, checker, shard=150 if name in ("export", "import", "pedal") else 400)
         except RuntimeError as e:
             ctx.obligation("correspondence: %s" % what, False, str(e)[-800:])
             ctx.violation("correspondence machinery failed for %s: %s" % (name, str(e)[-600:]), {"name": name}, no_input=True)
@@ -1063,14 +1362,31 @@ def replay(obj):
     if isinstance(r, dict) and r.get("case"):
         case = r["case"]
         wd = os.path.join(core.WORKROOT, "C08_replay")
-        obs = run_guarded(case, wd, "replay")
-        print("case: divs=%s tsigs=%s ksigs=%s bounds=%s pickup=%s ppq=%s mpq=%s notes=%d pnotes=%d" % (
-            case["divs"], case["tsigs"], case["ksigs"], case["bounds"], case["pickup"], case["ppq"], case["mpq"], len(case["notes"]), len(case["pnotes"])))
-        print("status:", obs["status"], obs.get("error", ""))
-        for ln in obs.get("text_lines", [])[:60]:
-            print("  |", ln)
-        for b in oracle(case, obs):
-            print("VIOLATED %s: %s" % b)
+        bad, chain = run_guarded(case, wd, "replay")
+        print("case: divs=%s tsigs=%s ksigs=%s bounds=%s pickup=%s ppq=%s mpq=%s pclock=%s legs=%s notes=%d pnotes=%d" % (
+            case["divs"], case["tsigs"], case["ksigs"], case["bounds"], case["pickup"], case["ppq"], case["mpq"],
+            case.get("pclock"), case.get("legs"), len(case["notes"]), len(case["pnotes"])))
+        for k, (c, obs) in enumerate(chain):
+            print("leg %d: save_match(ppq=%s, mpq=%s) status: %s %s" % (k + 1, c["ppq"], c["mpq"], obs["status"], obs.get("error", "")))
+            for p in c["pnotes"][:8]:
+                print("  given note", p)
+            for ln in obs.get("text_lines", [])[:60]:
+                print("  |", ln)
+            for n in (obs.get("perf") or {}).get("notes", [])[:8]:
+                print("  loaded note", dict(n, on=float(Fraction(n["on"])), off=float(Fraction(n["off"]))))
+        for b in bad:
+            print("VIOLATED leg %d %s: %s" % b)
+        import shutil
+        shutil.rmtree(wd, ignore_errors=True)
+    elif isinstance(r, dict) and r.get("clause") == "fixture_resave":
+        wd = os.path.join(core.WORKROOT, "C08_replay")
+        path = os.path.join(core.REPO, "tests", "data", "match", r["fixture"])
+        for clock, fbad, _, _, text_lines in fixture_resave(r["fixture"], path, [tuple(c) for c in r["clocks"]], wd, want_terms=False):
+            print("fixture %s saved again with ppq=%d mpq=%d:" % ((r["fixture"],) + tuple(clock)))
+            for ln in text_lines[:14]:
+                print("  |", ln)
+            for b in fbad[:10]:
+                print("VIOLATED %s: %s" % b)
         import shutil
         shutil.rmtree(wd, ignore_errors=True)
     elif isinstance(r, dict) and r.get("file_text"):
